@@ -30,12 +30,18 @@ package imagetype
 //@   ensures [C09 C08] old(pos(br)) + 24 > lim(br) ==> imageType == ImageUnknown && err != nil
 //@   ensures [C09 C08] old(pos(br)) + 24 <= lim(br) && !fault(br) && bsize(br) >= 24 ==> imageType == ImageType(specType(window(br))) && (err == nil || err == ErrImageTypeNotFound)
 
+// Scan agrees with Buf on the 24 bytes at the reader's position, whatever the reader's chunking: the classification goes through
+// a buffered reader (the caller's, or a 24-byte one of its own), and fails for a stream that holds 24 more bytes only if that
+// buffered reader met an I/O fault (ghost result flt).
 //@ func Scan
-//@   props C01 C09
+//@   props C01 C09 C08
 //@   entry
 //@   requires r != nil
+//@   ghost flt bool = fault(br)
 //@   ensures [C09] err != nil ==> imageType == ImageUnknown
 //@   ensures [C09] err == nil ==> imageType != ImageUnknown
+//@   ensures [C09 C08] err == nil ==> imageType == ImageType(specType(windowAt(r, old(pos(r)))))
+//@   ensures [C09 C08] old(pos(r)) + 24 <= lim(r) && !flt ==> imageType == ImageType(specType(windowAt(r, old(pos(r))))) && (err == nil || err == ErrImageTypeNotFound)
 
 //@ func ReadAt
 //@   props C01 C09
